@@ -58,7 +58,10 @@ type DisjunctionToType struct {
 }
 
 func (pass *DisjunctionToType) Process(schemas []*ast.Schema) ([]*ast.Schema, error) {
-	pass.schemas = schemas
+	// references are resolved in the schemas as they were handed over: the visitor rewrites the list
+	// it is given schema after schema, and what a reference resolves to must not depend on whether
+	// the package it points to was already processed (i.e. on the order of the inputs)
+	pass.schemas = ast.Schemas(schemas).DeepCopy()
 	visitor := &Visitor{
 		OnDisjunction: pass.processDisjunction,
 	}
